@@ -62,6 +62,13 @@ def u_values(rng):
     for i, v in enumerate(SMALL):
         out.append(('small-order/%d' % i, le(v)))
         out.append(('small-order-bit255/%d' % i, le(v | (1 << 255))))
+    # neighbours of the special values at distance 19 / 38 (= what a reduction modulo 2^255 instead of p, or a dropped top bit, turns
+    # the aliases p + v and 2p + v into), and everything within 40 of p
+    for i, v in enumerate(SMALL):
+        for dlt in (-38, -19, 19, 38):
+            out.append(('small-order%+d/%d' % (dlt, i), le((v + dlt) % (1 << 255))))
+    for d in range(3, 41):
+        out.append(('p-d/%d' % d, le(P - d)))
     for d in range(2, 19):       # every non-canonical alias p + d that fits below 2^255, with and without bit 255
         out.append(('p+d/%d' % d, le(P + d)))
         out.append(('p+d-bit255/%d' % d, le((P + d) | (1 << 255))))
